@@ -19,9 +19,9 @@ type runnerFacts struct {
 	body      *ssa.Function         // the function containing them and the select (the goroutine itself, or a step helper)
 	loop      *ssa.Function         // the goroutine root that runs body (body itself when it is started with `go`)
 	siteEv    map[ssa.CallInstruction]an.Event
-	stop      *ssa.Function         // method that calls the stored CancelFunc and then receives from a channel field
-	joinField *types.Var            // that channel field
-	cancelFld *types.Var            // the CancelFunc field
+	stop      *ssa.Function // method that calls the stored CancelFunc and then receives from a channel field
+	joinField *types.Var    // that channel field
+	cancelFld *types.Var    // the CancelFunc field
 	stopRecv  ssa.Instruction
 	stopCall  ssa.CallInstruction
 }
